@@ -221,6 +221,46 @@ class Run:
         except (B.BuildError, OSError):
             return []
 
+    # ----------------------------------------------------------------- optimiser guard
+    def tv_guard(self, h, units, dom=None, levels=("O2",), unroll=1, prefix="opt"):
+        """the optimised code computes what the source computes: for each wrapper, clang's -O<n> IR (machine semantics) against
+        the source-faithful IR on every input on which the source has no UB.  First with symbolic products / quotients as
+        uninterpreted functions (verify), then with the real arithmetic as a capped hunt (a timeout there is `no counterexample`,
+        not a failure).  A source-level proof cannot see a wrong function attribute or a transformation licensed by UB the
+        source-level check missed; this does.  Models are replayed across g++/clang++ builds at -O0..-O3 and compared with
+        each other."""
+        s64 = z3.BitVecSort(64)
+        SDIV, SREM = z3.Function("SDIV", s64, s64, s64), z3.Function("SREM", s64, s64, s64)
+        SQ = z3.Function("SQRTD", z3.Float64(), z3.Float64())
+        nat = [("g++", "-O0"), ("g++", "-O2"), ("g++", "-O3"), ("clang++-14", "-O0"), ("clang++-14", "-O1"), ("clang++-14", "-O2"),
+               ("clang++-14", "-O3")]
+        self.assume_note("optimiser guard (%s/*): clang -%s IR of each wrapper equals the source-faithful IR wherever the source "
+                         "execution has no UB; optimised IR under machine semantics (flags ignored, no poison)" % (
+                             prefix, ", -".join(levels)))
+        for u in units:
+            ins = [BV(n, B.WIDTH[k]) for n, k in u.params]
+            D = dom(u, ins) if dom is not None else z3.And([v != val(INT64_MIN) for (n, k), v in zip(u.params, ins) if k == "fx"]
+                                                           or [z3.BoolVal(True)])
+            for lv in levels:
+                name = "%s/%s/S-vs-%s" % (prefix, u.name, lv)
+
+                def build(ab, u=u, ins=ins, D=D, lv=lv, name=name):
+                    kw = dict(unroll=unroll, stubs={"sqrt": lambda ctx, args: SQ(args[0])})
+                    if ab:
+                        kw.update(mul_uf=True, div_uf=(SDIV, SREM), div_uf_all=True)
+                    c1 = self.call(h, u.name, ins, opts=E.Opts(**kw), ir="S")
+                    c2 = self.call(h, u.name, ins, opts=E.Opts(machine=True, track_ub=False, **kw), ir=lv)
+                    c1.encode()
+                    pre = z3.And(D, z3.Not(c1.res.ub_any()))
+                    ob = Ob(name, "verify" if ab else "hunt", ins, [c1, c2], pre, c1.out == c2.out, abstract=ab,
+                            comm_lemmas=False, portfolio=("z3", "cvc5") if ab else ("z3", "cvc5", "cvc5int"), timeout=60,
+                            natives=nat, note="same result bits from the source-faithful IR and clang -%s output" % lv)
+                    ob.cross_config = True
+                    return ob
+                ob = build(True)
+                ob.fallback = lambda b=build: b(False)
+                self._add(ob)
+
     # ----------------------------------------------------------------- known findings
     def known_for(self, ob):
         out = []
